@@ -91,11 +91,18 @@ FAM_ATTR = {"cc": "cache_control", "cr": "content_range", "auth": "www_authentic
 FAM_HEADER = {"cc": "Cache-Control", "cr": "Content-Range", "auth": "WWW-Authenticate", "mp": "Content-Type"}
 
 
+def hdr_of(v):
+    try:
+        return o_s(v.to_header())
+    except Exception as e:  # noqa: BLE001 - e.g. IndexError of dump_header on an empty key
+        return "!" + type(e).__name__
+
+
 def show(fam, v):
     if fam == "set":
         return "list=" + o_strs(list(v)) + "/set=[" + ",".join(sorted(o_s(x) for x in v.as_set())) + f"]/len={len(v)}/hdr=" + o_s(v.to_header())
     if fam == "cc":
-        return "items=" + o_odict(list(v.items())) + "/hdr=" + o_s(v.to_header()) + "/" + ",".join(f"{a}={o_val(getattr(v, a))}" for a, _, _, _ in cc_attrs())
+        return "items=" + o_odict(list(v.items())) + "/hdr=" + hdr_of(v) + "/" + ",".join(f"{a}={o_val(getattr(v, a))}" for a, _, _, _ in cc_attrs())
     if fam == "csp":
         return "items=" + o_pairs(list(v.items())) + "/hdr=" + o_s(v.to_header())
     if fam == "cr":
@@ -105,7 +112,7 @@ def show(fam, v):
             h = "!" + type(e).__name__
         return "(" + o_opt(o_s, v.units) + "," + o_opt(str, v.start) + "," + o_opt(str, v.stop) + "," + o_opt(str, v.length) + ")/bool=" + o_bool(bool(v)) + "/hdr=" + h
     if fam == "auth":
-        return "type=" + o_s(v.type) + "/token=" + o_opt(o_s, v.token) + "/params=" + o_odict(list(v.parameters.items())) + "/hdr=" + o_s(v.to_header())
+        return "type=" + o_s(v.type) + "/token=" + o_opt(o_s, v.token) + "/params=" + o_odict(list(v.parameters.items())) + "/hdr=" + hdr_of(v)
     if fam == "mp":
         return "items=" + o_pairs(list(v.items()))
     raise AssertionError(fam)
@@ -373,6 +380,7 @@ class ViewsStream(Stream):
         ["v", "setdefault", "max-age", "9"],
         ["v", "pop", "no-store", "!"],
         ["v", "pop", "max-age", "dflt"],
+        ["v", "setitem", "", "x"],
     ]
     CCX = [["f"], ["h", "set", "Cache-Control", "no-cache, max-age=3"], ["h", "set", "cache-control", "private=\"a, b\", x"], ["h", "remove", "Cache-Control"], ["h", "add", "Cache-Control", "public"]]
     CSPV = [
@@ -918,7 +926,7 @@ CHECK = Check(
     modules=["WzVerif.Props.C16"],
     streams=[ViewsStream(), ScalarStream()],
     assumptions=[
-        "the header codecs used by the views (parse_list_header/urllib parse_http_list, parse_dict_header, dump_header, parse_csp_header, parse_content_range_header, WWWAuthenticate.from_header/to_header, parse_options_header without RFC 2231 `*` parameters) are transcribed in Model.Views and validated by stream views; their round-trip on the view contents a history visits is an explicit decidable side condition of view_coherent_* (it is the subject of C06); for HeaderSet views with token-valued members the round trip is proved (parseList_dumpList) and view_coherent_set_tokens carries no codec hypothesis",
+        "the header codecs used by the views are the C06 models (Model/Http.lean: parse_list_header/urllib parse_http_list, parse_set_header, parse_dict_header, dump_header, parse_csp_header, parse_content_range_header, WWWAuthenticate.from_header/to_header, parse_options_header, dump_options_header), validated here by stream views and in C06 by its own streams; the view_coherent_* theorems use the C06 round-trip theorems, their only side conditions are explicit domain predicates on the written views (setGood, dictGood, cspGood, crGood, authGood, mpGood) and HeaderSet.Inv / non-colliding item assignment for the set views; WWW-Authenticate Digest challenges (always-quoted parameters) are outside authGood: no round-trip theorem exists for them yet",
         "dates (http_date / parse_date) are opaque: the harness computes the text with the same library call; the model covers the Headers mechanics of the date properties",
         "str.lower / title / strip follow Util.Py (ASCII letter case; Unicode white space table)",
         "known finding F16b: WWW-Authenticate view with neither token nor parameters is written back as 'Basic ' (header present for an empty view; re-read has token '')",
@@ -930,7 +938,7 @@ CHECK = Check(
 
 MANIFEST = {
     "level_text": "Machine-checked Lean 4 theorems: for every history of view mutations, re-fetches, whole-property assignments and direct header edits, the notification discipline of each view family (HeaderSet views under HeaderSet.Inv, cache-control / CSP / mimetype_params callback dicts, ContentRange, WWWAuthenticate as repaired) keeps the held view in sync with the header, and after an effective mutation the header text is the view's serialisation or absent when the view is empty; typed get/set for the scalar properties. The transcribed views are tied to the code by an exhaustive short-history correspondence stream and the two-part property oracle runs on the real objects.",
-    "level_note": "Trusted: Lean kernel; extract.py; harness; header codec round-trips are decidable side conditions of the history (C06), proved outright for token-valued HeaderSet views; dates opaque. Known findings F16b, F16c, F16d, F16f, F08b/F08c through views.",
+    "level_note": "Trusted: Lean kernel; extract.py; harness; codec round trips are the C06 theorems (domain predicates on the written views are the only side conditions; Digest challenges not covered); dates opaque. Known findings F16b, F16c, F16d, F16f, F08b/F08c through views.",
     "technique": "Lean 4 proof (invariant over operation histories, generic in the view family) + model/code correspondence",
     "design_ref": "DESIGN.md section 4, C16",
 }
